@@ -37,6 +37,12 @@ pub struct Gen {
     /// huge try_reserve amounts
     pub huge_reserve: bool,
     pub fresh_counter: u32,
+    /// largest lying size hint (kept small for big elements so tables stay cheap to audit)
+    pub max_hint: i64,
+    /// C13 churn mode: (bound on live size, removal order 0 random / 1 FIFO / 2 LIFO / 3 middle)
+    pub churn: Option<(usize, u8)>,
+    /// insertion order of live ids per slot (churn mode)
+    pub order: Vec<Vec<u32>>,
 }
 
 pub struct RunSpec {
@@ -50,7 +56,8 @@ fn boundary_amount(rng: &mut Rng, cap: usize) -> i64 {
     // around 7/8 * 2^k boundaries and small values
     match rng.below(4) {
         0 => rng.below(8) as i64,
-        1 => rng.below(2 * cap as u64 + 5) as i64,
+        // bounded so that repeated reservations cannot snowball into giant tables
+        1 => rng.below((2 * cap as u64 + 5).min(300)) as i64,
         2 => {
             let k = rng.range(2, 9) as u32;
             let b = (1i64 << k) * 7 / 8;
@@ -118,17 +125,22 @@ impl Gen {
     fn entry_chain(&self, rng: &mut Rng, present: bool) -> Vec<i64> {
         let api = rng.below(self.entry_apis.max(1) as u64) as i64;
         let mut v = vec![api];
+        if api == 6 {
+            v.push(rng.below(3) as i64);
+            return v;
+        }
+        const ALL: [i64; 31] = [1, 2, 3, 4, 5, 6, 7, 8, 9, 10, 11, 12, 13, 14, 15, 16, 17, 18, 20, 21, 22, 23, 24, 25, 30, 31, 32, 33, 34, 35, 0];
         // 0 = E, 1 = O, 2 = V, 3 = done
-        let mut st = 0;
+        let mut st = 0u8;
         let mut occ = present;
         let n = rng.range(1, 3);
         for _ in 0..n {
-            let m = match st {
-                0 => *rng.pick(&[1i64, 2, 3, 4, 5, 6, 7, 8, 9, 9, 9]),
-                1 => *rng.pick(&[10i64, 11, 12, 13, 14, 15, 16, 17, 18]),
-                2 => *rng.pick(&[20i64, 21, 22, 23, 0]),
-                _ => break,
-            };
+            if st == 3 {
+                break;
+            }
+            let cands: Vec<i64> = ALL.iter().copied().filter(|&m| crate::mapw_entry::method_ok(api, st, m)).collect();
+            // "match" (9) is weighted up so that the variant-specific methods are reached
+            let m = if st == 0 && rng.below(3) == 0 { 9 } else if cands.is_empty() || rng.below(12) == 0 { 0 } else { *rng.pick(&cands) };
             v.push(m);
             match m {
                 1 => {
@@ -136,16 +148,15 @@ impl Gen {
                     occ = true;
                 }
                 2 | 3 | 4 => st = 3,
-                7 => {}
                 8 => occ = false,
                 9 => st = if occ { 1 } else { 2 },
-                13 | 15 | 16 => st = 3,
+                13 | 15 | 16 | 31 | 34 => st = 3,
                 17 => st = 0,
                 18 => {
                     st = 0;
                     occ = false;
                 }
-                21 | 22 | 0 => st = 3,
+                21 | 22 | 24 | 25 | 0 => st = 3,
                 23 => {
                     st = 1;
                     occ = true;
@@ -202,9 +213,51 @@ impl Gen {
         }
     }
 
+    /// C13: insert/remove/lookup interleavings with bounded live size and no explicit reservation.
+    fn next_churn(&mut self, rng: &mut Rng, view: &WorldView, n: usize, order: u8) -> Op {
+        let s = 0usize;
+        let sv = &view.slots[s];
+        if self.order.is_empty() {
+            self.order = vec![Vec::new(); self.n_slots];
+        }
+        // keep the insertion-order list in step with the model
+        self.order[s].retain(|id| sv.ids.contains(id));
+        let table = self.family == Family::Table;
+        let r = rng.below(100);
+        let want_insert = sv.len < n && (sv.len == 0 || r < 50);
+        if want_insert {
+            // fresh ids march through the position space; sometimes an old id comes back
+            let id = if rng.below(8) == 0 { rng.below(self.universe as u64) as u32 } else {
+                self.fresh_counter += 1;
+                self.universe + self.fresh_counter
+            };
+            if !sv.ids.contains(&id) {
+                self.order[s].push(id);
+            }
+            return Op::new(if table { Kd::TInsertUnique } else { Kd::Insert }).s(s).a(id as i64).b(rng.below(1 << 20) as i64);
+        }
+        if r < 85 && !self.order[s].is_empty() {
+            let l = self.order[s].len();
+            let idx = match order {
+                1 => 0,
+                2 => l - 1,
+                3 => l / 2,
+                _ => rng.below(l as u64) as usize,
+            };
+            let id = self.order[s].remove(idx);
+            return Op::new(if table { Kd::TFindEntry } else { Kd::Remove }).s(s).a(id as i64).b(1);
+        }
+        // lookups, half of them of absent keys
+        let id = if rng.below(2) == 0 { self.key(rng, sv, 100) } else { self.universe + self.fresh_counter + 1 + rng.below(1000) as u32 };
+        Op::new(if table { Kd::TFind } else { *rng.pick(&[Kd::Get, Kd::ContainsKey, Kd::GetView]) }).s(s).a(id as i64)
+    }
+
     pub fn next(&mut self, rng: &mut Rng, view: &WorldView) -> Op {
         if let Some(op) = self.pending.pop_front() {
             return op;
+        }
+        if let Some((n, order)) = self.churn {
+            return self.next_churn(rng, view, n, order);
         }
         if self.macro_den > 0 && rng.below(self.macro_den) == 0 {
             let s = self.slot(rng);
@@ -259,7 +312,7 @@ impl Gen {
                     v.push(self.key(rng, sv, 30) as i64);
                     v.push(rng.below(1 << 20) as i64);
                 }
-                let hint = if self.lying_hints && rng.below(3) == 0 { *rng.pick(&[0i64, 1, 7, 100, 5000, 1 << 20]) } else { -1 };
+                let hint = if self.lying_hints && rng.below(3) == 0 { if rng.below(25) == 0 { self.max_hint } else { *rng.pick(&[0i64, 1, 7, 100, 1000, 3000]) } } else { -1 };
                 Op::new(kind).s(s).a(hint).v(v)
             }
             Kd::Retain => Op::new(kind).s(s).b((rng.below(100) < self.toggle_pct) as i64).v(self.subset(rng, sv)),
@@ -287,7 +340,7 @@ impl Gen {
             Kd::Entry => {
                 let kid = self.key(rng, sv, 50);
                 let present = sv.ids.contains(&kid);
-                Op::new(kind).s(s).a(kid as i64).b(val).v(self.entry_chain(rng, present))
+                Op::new(kind).s(s).a(kid as i64).b(val).c((self.allow_forget && rng.below(5) == 0) as i64).v(self.entry_chain(rng, present))
             }
             Kd::GetMany | Kd::GetManyKv | Kd::TGetMany => {
                 let n = rng.below(5);
@@ -334,7 +387,7 @@ pub fn base_cfg(rng: &mut Rng, n_slots: usize) -> Config {
     // the same plan for all slots in half the runs, independent plans otherwise
     let first = Plan::random(rng);
     let plans = (0..n_slots).map(|i| if i == 0 || rng.below(2) == 0 { first.clone() } else { Plan::random(rng) }).collect();
-    Config { plans, eq_mode: EqMode::Lawful, byz_seed: rng.next(), exact_align: rng.below(4) != 0, callback_cap: 0, functional: 1, sweep_below: 48 }
+    Config { plans, eq_mode: EqMode::Lawful, byz_seed: rng.next(), exact_align: rng.below(4) != 0, callback_cap: 0, functional: 1, sweep_below: 48, churn_bound: 0 }
 }
 
 pub const MAP_CORE: &[(Kd, u32)] = &[
